@@ -180,9 +180,10 @@ func randCert(c *hx.Ctx) []byte {
 	case 1:
 		return []byte{}
 	case 2:
-		return c.RandBytes(127 + c.Intn(3))
-	case 3:
-		return c.RandBytes(300 + c.Intn(200))
+		if c.Chance(0.5) {
+			return c.RandBytes(127 + c.Intn(3)) // 1 -> 2 byte length prefix
+		}
+		return c.RandBytes(200 + c.Intn(200))
 	default:
 		return c.RandBytes(1 + c.Intn(40))
 	}
@@ -397,7 +398,7 @@ func mutate(c *hx.Ctx, b []byte) []byte {
 // ---- the component ----------------------------------------------------------------------------------
 
 func runPayload(c *hx.Ctx) {
-	cw := c.NewCaseWriter("From NV Require Import corr.Payload_corr.", "Payload_corr.case", "Payload_corr.check_case", 600)
+	cw := c.NewCaseWriter("From NV Require Import corr.Payload_corr.", "Payload_corr.case", "Payload_corr.check_case", 200)
 
 	pjson := func(p handshake.Payload) any {
 		return map[string]any{"cert": hx.Ints(p.Cert), "ii": p.InitiatorIndex, "ri": p.ResponderIndex, "time": fmt.Sprint(p.Time), "ver": p.CertVersion}
@@ -464,7 +465,11 @@ func runPayload(c *hx.Ctx) {
 	for _, e := range tedges {
 		addMarshal("marshal-edge", handshake.Payload{Time: e}, nil)
 	}
-	for _, l := range []int{0, 1, 127, 128, 129, 16383, 16384} {
+	certLens := []int{0, 1, 127, 128, 129, 500}
+	if c.Tier == "thorough" {
+		certLens = append(certLens, 16383, 16384) // 2 -> 3 byte length prefix (large literals are slow to evaluate)
+	}
+	for _, l := range certLens {
 		addMarshal("marshal-edge", handshake.Payload{Cert: make([]byte, l), InitiatorIndex: 1}, []byte{0xaa})
 	}
 	addMarshal("marshal-edge", handshake.Payload{Cert: []byte{}}, nil)
